@@ -8,6 +8,7 @@ import (
 	"os"
 	"sort"
 	"strings"
+	"verif/internal/corpus"
 	"verif/internal/vsrun"
 
 	"verif/internal/clitree"
@@ -96,6 +97,9 @@ func histories(thorough bool) []History {
 		History{"bundle to new file", clitree.Tree{"a.js": {Data: []byte("var a = 1 ;\n")}, "b.js": {Data: []byte("var b = 2 ;\n")}}, []string{"-b", "-o", "all.js", "a.js", "b.js"}},
 		History{"sync -s", clitree.Tree{"src/a.css": {Data: []byte(samples["css"])}, "src/c.txt": {Data: []byte("copied verbatim")}, "src/sub/d.bin": {Data: []byte{0, 1, 2}}}, []string{"-v", "-r", "-s", "-o", "out/", "src"}},
 		History{"sync -s in place", clitree.Tree{"src/a.css": {Data: []byte(samples["css"])}, "src/c.txt": {Data: []byte("copied verbatim")}}, []string{"-v", "-r", "-s", "-o", ".", "src"}},
+		// the same files under two spellings: source directory and output directory are the same directory, reached through a symbolic link
+		History{"sync -s onto itself through a directory link", clitree.Tree{"src/a.css": {Data: []byte(samples["css"])}, "src/logo.bin": {Data: []byte("\x89PNG not minified, only copied")}, "alias": {Link: "src"}}, []string{"-v", "-r", "-s", "-o", "alias/", "src/"}},
+		History{"mirror -r onto itself through a directory link", clitree.Tree{"src/a.css": {Data: []byte(samples["css"])}, "src/b.js": {Data: []byte(samples["js"])}, "alias": {Link: "src"}}, []string{"-v", "-r", "-o", "alias/", "src/"}},
 		History{"preserve all", clitree.Tree{"s.css": {Data: []byte(samples["css"]), Mode: 0o640}}, []string{"-p", "all", "-o", "s.css", "s.css"}},
 		History{"preserve none", clitree.Tree{"s.css": {Data: []byte(samples["css"]), Mode: 0o640}}, []string{"--preserve=", "-o", "s.css", "s.css"}},
 		History{"two files in place sequential", clitree.Tree{"a.css": {Data: []byte(samples["css"])}, "b.css": {Data: []byte("b { x : y }\n")}}, []string{"-v", "-o", ".", "a.css", "b.css"}},
@@ -147,6 +151,18 @@ func sameOps(a, b []ptsup.Op, n int) bool {
 
 // resolve follows symlinks of the initial tree to the regular-file path.
 func resolve(t clitree.Tree, p string) string {
+	// a leading directory that is a symbolic link (src reached as alias/...)
+	for i := 0; i < 8; i++ {
+		k := strings.IndexByte(p, '/')
+		if k < 0 {
+			break
+		}
+		if n, ok := t[p[:k]]; ok && n.Link != "" {
+			p = n.Link + p[k:]
+			continue
+		}
+		break
+	}
 	for i := 0; i < 8; i++ {
 		n, ok := t[p]
 		if !ok || n.Link == "" {
@@ -235,7 +251,7 @@ type job struct {
 
 // Run executes C20.
 func Run(c *core.Check) {
-	c.Rule = "for each history (invocation of the real cmd/minify binary on a small tree: in-place for every media type and sizes 0 B..64 KiB+1 (thorough 1 MiB), failing minification, symlink/hard-link aliases, separate output, directory mirror, in-place directory, bundles onto an input, sync, preserve variants): a trace run records the N file-mutating system calls; then for EVERY k in 1..N a fresh tree is built and the process is killed right before operation k executes, and every write/copy operation is additionally torn at 1, n/2 and n-1 bytes; thorough adds fail@k with ENOSPC/EIO/EACCES. The disk state left behind must satisfy: every file written by the invocation holds its complete original, or <name>.bak does, or it holds the complete new output; files only read are unchanged. Concurrent tasks: the tool is rebuilt with package os routed through a shim (go build -overlay) and 1, 2 (thorough 3) tasks from 7 kinds (in place css/js, separate output, sync copy, bundle onto an input, failing minification, in place through a link) run the real minify(Task) concurrently; every interleaving of their file system operations up to the preemption bound is explored, the invariant is evaluated before every disk-changing operation (torn writes included) and the final tree must equal the sequential one. Non-trivial = a crash state that differs from both the initial and the final tree"
+	c.Rule = "for each history (invocation of the real cmd/minify binary on a small tree: in-place for every media type and sizes 0 B..64 KiB+1 (thorough 1 MiB), failing minification, symlink/hard-link aliases, separate output, directory mirror, in-place directory, bundles onto an input, sync, preserve variants): a trace run records the N file-mutating system calls; then for EVERY k in 1..N a fresh tree is built and the process is killed right before operation k executes, and every write/copy operation is additionally torn at 1, n/2 and n-1 bytes; quick makes every write fail with ENOSPC, thorough every operation with ENOSPC/EIO/EACCES. The disk state left behind must satisfy: every file written by the invocation holds its complete original, or <name>.bak does, or it holds the complete new output; files only read are unchanged. Concurrent tasks: the tool is rebuilt with package os routed through a shim (go build -overlay) and 1, 2 (thorough 3) tasks from 7 kinds (in place css/js, separate output, sync copy, bundle onto an input, failing minification, in place through a link) run the real minify(Task) concurrently; every interleaving of their file system operations up to the preemption bound is explored, the invariant is evaluated before every disk-changing operation (torn writes included) and the final tree must equal the sequential one. Non-trivial = a crash state that differs from both the initial and the final tree"
 	c.Assumptions = []string{"process kill only (page cache survives); kills inside system calls other than write are equivalent to before/after", "expected new output = content after an undisturbed run (its correctness is C19's business)", "ptrace histories run tasks sequentially (-v or a single task); the worker pool is covered by the concurrent-tasks family: real minify(Task) bodies under the controlled scheduler, preemption-bounded; the channel that hands tasks to workers is not modelled (any assignment of tasks to workers is an interleaving of task bodies)"}
 	defer clitree.Cleanup()
 	cli, err := clitree.CLI()
@@ -281,6 +297,22 @@ func Run(c *core.Check) {
 				written[o.Path2] = true
 			}
 		}
+		// the undisturbed run itself: an input file that was written must end up as its original or as
+		// the library's output for it (bundles, whose output is a concatenation, are C19's business)
+		if !contains(h.Args, "-b") {
+			ins := h.inputFiles()
+			for p := range initial {
+				o, isFile := initial.Content(p)
+				if !isFile || !ins[p] || !written[p] {
+					continue
+				}
+				got, ok := final.Content(p)
+				if ok && (bytes.Equal(got, o) || isLibraryOutput(o, got)) {
+					continue
+				}
+				c.Fail(core.Failure{Family: "trace", Input: h.Name + ": minify " + strings.Join(h.Args, " "), Kind: "final-content-lost", What: fmt.Sprintf("after an undisturbed run %s holds %s: neither its original (%d bytes) nor the library's output for it", p, describe(final, p), len(o))})
+			}
+		}
 		refs[i] = &refT{res, initial, final, written}
 		c.Count(2)
 		c.Sample(map[string]any{"history": h.Name, "args": strings.Join(h.Args, " "), "mutating_ops": opsString(res.Ops)})
@@ -305,6 +337,13 @@ func Run(c *core.Check) {
 						}{i, ptsup.Mode{Kind: "tear", K: k, TearLen: j}})
 					}
 				}
+			}
+			if !c.Thorough() && (o.Name == "write" || o.Name == "copy") {
+				// quick: every write fails with ENOSPC (the error most likely to hit a write and nothing else)
+				jobs = append(jobs, struct {
+					hi   int
+					mode ptsup.Mode
+				}{i, ptsup.Mode{Kind: "fail", K: k, Errno: 28}})
 			}
 			if c.Thorough() {
 				for _, e := range []int{28, 5, 13} {
@@ -364,4 +403,23 @@ func Run(c *core.Check) {
 
 func Replay(f core.Failure) (string, string) {
 	return "replay-unsupported", "re-run ./run.sh C20 quick: the history name and kill index in the replay file identify the crash point"
+}
+
+func contains(l []string, x string) bool {
+	for _, y := range l {
+		if y == x {
+			return true
+		}
+	}
+	return false
+}
+
+// isLibraryOutput: got is what some registered minifier makes of orig.
+func isLibraryOutput(orig, got []byte) bool {
+	for _, t := range corpus.Types {
+		if out, err := corpus.Registry().Bytes(t, append([]byte{}, orig...)); err == nil && bytes.Equal(out, got) {
+			return true
+		}
+	}
+	return false
 }
